@@ -181,7 +181,7 @@ class ReadLog:
             data = orig_read(self_, size)
             h = PR._gwverif_hook
             if h.on:
-                h.log.append((id(self_), pos, size, len(data)))
+                h.log.append((self_, pos, size, len(data)))
             return data
 
         PR.read = read
